@@ -44,9 +44,13 @@ pub enum Tmpl {
     Brackets,
     /// pure Pratt, no Recursive: 'x' with prefix '-', infix-right '^', postfix '!'
     PrattChain,
+    /// pure Pratt with a mixed table: two prefix operators '-' '~', infix-left '+', infix-right '^'
+    /// (seeded powers, often equal), postfix '!'; inputs nest through *alternating* operators
+    /// (prefix/prefix, left/right infix at one power), runs of one operator, and random mixes
+    PrattMix,
 }
 
-pub const TEMPLATES: [Tmpl; 7] = [Tmpl::Paren, Tmpl::List, Tmpl::Chain, Tmpl::Mutual, Tmpl::PrattGroup, Tmpl::Brackets, Tmpl::PrattChain];
+pub const TEMPLATES: [Tmpl; 8] = [Tmpl::Paren, Tmpl::List, Tmpl::Chain, Tmpl::Mutual, Tmpl::PrattGroup, Tmpl::Brackets, Tmpl::PrattChain, Tmpl::PrattMix];
 
 #[derive(Clone, Copy, Debug, PartialEq, Eq, Hash, Serialize, Deserialize)]
 pub enum Form {
@@ -87,6 +91,11 @@ pub struct LifeCase {
     pub ops: Vec<Op>,
     /// compare with the unrolling when the number of opener tokens is <= this
     pub unroll_max: usize,
+    /// declare/define forms only: a parse through the still-undefined parser (it panics; the panic is
+    /// caught) *before* the first definition: 1 = through a clone of the handle, 2 = through a boxed
+    /// clone. The first definition must still be accepted afterwards and behave as usual.
+    #[serde(default)]
+    pub premature: u8,
 }
 
 // ---------------------------------------------------------------------------------------------
@@ -95,14 +104,14 @@ pub struct LifeCase {
 thread_local! {
     /// Pratt binding powers of the case being built (prefix, infix-right, third operator); derived
     /// from the case's shape seed so that replay needs nothing else.
-    static BP: std::cell::Cell<[u16; 3]> = const { std::cell::Cell::new([3, 1, 2]) };
+    static BP: std::cell::Cell<[u16; 5]> = const { std::cell::Cell::new([3, 1, 2, 1, 2]) };
 }
 
 /// Half of the cases keep the template's own powers; the other half draw each from 0..=3
 /// (binding power 0 is legal and is what the loosest operator of a real grammar often has).
 fn set_bp(shape_seed: u64) {
     let s = crate::prng::mix64(shape_seed ^ 0xB1D);
-    let v = if s & 1 == 0 { [u16::MAX, u16::MAX, u16::MAX] } else { [((s >> 8) % 4) as u16, ((s >> 16) % 4) as u16, ((s >> 24) % 4) as u16] };
+    let v = if s & 1 == 0 { [u16::MAX; 5] } else { [((s >> 8) % 4) as u16, ((s >> 16) % 4) as u16, ((s >> 24) % 4) as u16, ((s >> 32) % 4) as u16, ((s >> 40) % 4) as u16] };
     BP.with(|b| b.set(v));
 }
 
@@ -169,9 +178,21 @@ fn body<'a>(t: Tmpl, pads: &[u8], me: BX<'a>, other: Option<BX<'a>>, second: boo
             just(b'x').to((0, 0)),
         ))
         .boxed(),
-        Tmpl::PrattChain => unreachable!(),
+        Tmpl::PrattChain | Tmpl::PrattMix => unreachable!(),
     };
     pad(b, pads)
+}
+
+fn pratt_mix<'a>(pads: &[u8]) -> BX<'a> {
+    let atom = pad(just(b'x').to((0u64, 0u64)).boxed(), pads);
+    atom.pratt((
+        prefix(bp(0, 1), just(b'-'), |_, r: O, _| (r.0, r.1 + 1)),
+        prefix(bp(1, 2), just(b'~'), |_, r: O, _| (r.0, r.1 + 1)),
+        infix(left(bp(2, 1)), just(b'+'), |l: O, _, r: O, _| (l.0.max(r.0), l.1 + r.1 + 1)),
+        infix(right(bp(3, 1)), just(b'^'), |l: O, _, r: O, _| (l.0.max(r.0), l.1 + r.1 + 1)),
+        postfix(bp(4, 3), just(b'!'), |l: O, _, _| (l.0, l.1 + 1)),
+    ))
+    .boxed()
 }
 
 fn pratt_chain<'a>(pads: &[u8]) -> BX<'a> {
@@ -192,6 +213,7 @@ fn never<'a>() -> BX<'a> {
 fn unroll<'a>(t: Tmpl, pads: &[u8], k: usize) -> BX<'a> {
     match t {
         Tmpl::PrattChain => pratt_chain(pads),
+        Tmpl::PrattMix => pratt_mix(pads),
         Tmpl::Mutual => {
             let (mut a, mut b) = (never(), never());
             for _ in 0..k {
@@ -223,7 +245,7 @@ pub fn openers(t: Tmpl) -> &'static [u8] {
         Tmpl::Mutual => b"([",
         Tmpl::PrattGroup => b"(",
         Tmpl::Brackets => b"([{",
-        Tmpl::PrattChain => b"",
+        Tmpl::PrattChain | Tmpl::PrattMix => b"",
     }
 }
 
@@ -363,6 +385,83 @@ pub fn gen_input(t: Tmpl, depth: usize, shape_seed: u64) -> (Vec<u8>, O, usize) 
             let l = v.len();
             (v, (0, n as u64), l)
         }
+        Tmpl::PrattMix => {
+            // n operators; every well-formed expression is consumed completely whatever the powers
+            // are, and the folds only count operators
+            let mut v = Vec::with_capacity(2 * n + 2);
+            match rng.below(7) {
+                0 => {
+                    // two prefix operators alternating
+                    for i in 0..n {
+                        v.push(if i % 2 == 0 { b'-' } else { b'~' });
+                    }
+                    v.push(b'x');
+                }
+                1 => {
+                    // random prefix mix
+                    for _ in 0..n {
+                        v.push(if rng.chance(1, 2) { b'-' } else { b'~' });
+                    }
+                    v.push(b'x');
+                }
+                2 => {
+                    // left- and right-associative infix alternating
+                    v.push(b'x');
+                    for i in 0..n {
+                        v.extend_from_slice(if i % 2 == 0 { b"+x" } else { b"^x" });
+                    }
+                }
+                3 => {
+                    v.push(b'x');
+                    for _ in 0..n {
+                        v.extend_from_slice(if rng.chance(1, 2) { b"+x" } else { b"^x" });
+                    }
+                }
+                4 => {
+                    // operands that are themselves prefixed:  x ^ -x + ~x ^ ...   (2 operators per step)
+                    v.push(b'x');
+                    for i in 0..n / 2 {
+                        v.push(if i % 2 == 0 { b'^' } else { b'+' });
+                        v.push(if rng.chance(1, 2) { b'-' } else { b'~' });
+                        v.push(b'x');
+                    }
+                    if n % 2 == 1 {
+                        v.push(b'!');
+                    }
+                }
+                5 => {
+                    // prefix run, atom, postfix run
+                    let k = rng.usize(n + 1);
+                    for i in 0..k {
+                        v.push(if i % 3 == 0 { b'~' } else { b'-' });
+                    }
+                    v.push(b'x');
+                    v.extend(std::iter::repeat(b'!').take(n - k));
+                }
+                _ => {
+                    // everything mixed
+                    let mut ops = 0;
+                    loop {
+                        while ops < n && rng.chance(1, 3) {
+                            v.push(if rng.chance(1, 2) { b'-' } else { b'~' });
+                            ops += 1;
+                        }
+                        v.push(b'x');
+                        while ops < n && rng.chance(1, 4) {
+                            v.push(b'!');
+                            ops += 1;
+                        }
+                        if ops >= n {
+                            break;
+                        }
+                        v.push(if rng.chance(1, 2) { b'+' } else { b'^' });
+                        ops += 1;
+                    }
+                }
+            }
+            let l = v.len();
+            (v, (0, n as u64), l)
+        }
     }
 }
 
@@ -395,7 +494,7 @@ fn rejection_is_certain(c: &LifeCase) -> bool {
     match c.variant {
         Variant::WellFormed => true,
         Variant::WrongAt(_) | Variant::Surplus => true,
-        Variant::Truncated(_) => !matches!(c.tmpl, Tmpl::PrattGroup | Tmpl::PrattChain),
+        Variant::Truncated(_) => !matches!(c.tmpl, Tmpl::PrattGroup | Tmpl::PrattChain | Tmpl::PrattMix),
     }
 }
 
@@ -459,16 +558,39 @@ pub enum OpResult {
 
 /// Build the recursive parser in the requested form and run the lifecycle history. Runs on the
 /// resource-limited thread.
-fn run_history<'a>(c: &LifeCase, input: &'a [u8]) -> Vec<OpResult> {
+pub struct History {
+    /// outcome of the premature parse, if the case has one (characterised only)
+    pub premature: Option<Outcome>,
+    /// panic message of the FIRST define of a declared parser, if it panicked
+    pub first_define_refused: Option<String>,
+    pub results: Vec<OpResult>,
+}
+
+fn run_history<'a>(c: &LifeCase, input: &'a [u8]) -> History {
     set_bp(c.shape_seed);
     let mut pool: Vec<H<'a>> = Vec::new();
+    let mut premature = None;
+    let mut refused = None;
+    let early = |h: &RI<'a>| -> Option<Outcome> {
+        match c.premature {
+            0 => None,
+            1 => Some(H::Ind(h.clone()).run(input, false)),
+            _ => Some(H::Bx(h.clone().boxed()).run(input, false)),
+        }
+    };
     match (c.tmpl, c.form) {
         (Tmpl::PrattChain, _) => pool.push(H::Bx(pratt_chain(&c.pads))),
+        (Tmpl::PrattMix, _) => pool.push(H::Bx(pratt_mix(&c.pads))),
         (Tmpl::Mutual, _) => {
             let mut a: RI<'a> = Recursive::declare();
             let mut b: RI<'a> = Recursive::declare();
             a.define(body(c.tmpl, &c.pads, never(), Some(b.clone().boxed()), false));
-            b.define(body(c.tmpl, &c.pads, never(), Some(a.clone().boxed()), true));
+            // A is defined in terms of B, B is not defined yet: a parse through A that reaches B panics
+            premature = early(&a);
+            let bb = body(c.tmpl, &c.pads, never(), Some(a.clone().boxed()), true);
+            if catch_unwind(AssertUnwindSafe(|| b.define(bb))).is_err() {
+                refused = Some(hook::take_panic());
+            }
             pool.push(H::Ind(a));
             // b stays alive through a's definition (Rc cycle), the local handle is dropped here
         }
@@ -479,7 +601,11 @@ fn run_history<'a>(c: &LifeCase, input: &'a [u8]) -> Vec<OpResult> {
         }
         (t, Form::Indirect) => {
             let mut r: RI<'a> = Recursive::declare();
-            r.define(body(t, &c.pads, r.clone().boxed(), None, false));
+            premature = early(&r);
+            let bb = body(t, &c.pads, r.clone().boxed(), None, false);
+            if catch_unwind(AssertUnwindSafe(|| r.define(bb))).is_err() {
+                refused = Some(hook::take_panic());
+            }
             pool.push(H::Ind(r));
         }
     }
@@ -526,7 +652,7 @@ fn run_history<'a>(c: &LifeCase, input: &'a [u8]) -> Vec<OpResult> {
         };
         out.push(res);
     }
-    out
+    History { premature, first_define_refused: refused, results: out }
 }
 
 /// Reference: the unrolling, on the calling (big-stack) thread.
@@ -553,6 +679,7 @@ pub struct CaseRun {
     pub used_unrolling: bool,
     pub used_generator_oracle: bool,
     pub generator_vs_unrolling_disagree: bool,
+    pub premature: Option<Outcome>,
 }
 
 pub const DEFINE_ONCE_MSG: &str = "recursive parsers can only be defined once";
@@ -578,14 +705,22 @@ pub fn exec_case(c: &LifeCase) -> CaseRun {
     let results = match handle.join() {
         Ok(Ok(v)) => v,
         Ok(Err(msg)) => {
-            return CaseRun { results: vec![], failure: Some(("history-panicked".into(), msg)), digest: 0, used_unrolling: false, used_generator_oracle: false, generator_vs_unrolling_disagree: false }
+            return CaseRun { results: vec![], failure: Some(("history-panicked".into(), msg)), digest: 0, used_unrolling: false, used_generator_oracle: false, generator_vs_unrolling_disagree: false, premature: None }
         }
         Err(_) => {
-            return CaseRun { results: vec![], failure: Some(("history-panicked".into(), "sut thread died".into())), digest: 0, used_unrolling: false, used_generator_oracle: false, generator_vs_unrolling_disagree: false }
+            return CaseRun { results: vec![], failure: Some(("history-panicked".into(), "sut thread died".into())), digest: 0, used_unrolling: false, used_generator_oracle: false, generator_vs_unrolling_disagree: false, premature: None }
         }
     };
+    let History { premature, first_define_refused, results } = results;
     let mut digest = fold_bytes(7, &input[..input.len().min(4096)]);
     let mut failure = None;
+    if let Some(msg) = first_define_refused {
+        // only a SECOND definition may be refused
+        failure = Some(("first-define-refused".into(), format!("the first define() of a declared parser panicked (after a premature parse through it: {}): {}", premature.as_ref().map(|o| o.brief()).unwrap_or_default(), msg)));
+    }
+    if let Some(o) = &premature {
+        digest = fold(digest, o.digest());
+    }
     let use_unroll = n_open <= c.unroll_max;
     let mut ref_parse: Option<Outcome> = None;
     let mut ref_check: Option<Outcome> = None;
@@ -651,7 +786,7 @@ pub fn exec_case(c: &LifeCase) -> CaseRun {
             }
         }
     }
-    CaseRun { results, failure, digest, used_unrolling: use_unroll, used_generator_oracle: used_gen, generator_vs_unrolling_disagree: disagree }
+    CaseRun { results, failure, digest, used_unrolling: use_unroll, used_generator_oracle: used_gen, generator_vs_unrolling_disagree: disagree, premature }
 }
 
 // Calibration of the generator expectation: per template, shallow well-formed and malformed inputs
@@ -668,7 +803,7 @@ fn calibrated(t: Tmpl) -> bool {
                 let mut ok = true;
                 for depth in 0..7usize {
                     for (vi, variant) in [Variant::WellFormed, Variant::Truncated(depth), Variant::WrongAt(depth + 1), Variant::Surplus].into_iter().enumerate() {
-                        let c = LifeCase { tmpl: *t, form: Form::Direct, pads: vec![], stack_kib: 1024, depth, shape_seed: 11 + depth as u64 + vi as u64, variant, ops: vec![], unroll_max: 64 };
+                        let c = LifeCase { tmpl: *t, form: Form::Direct, pads: vec![], stack_kib: 1024, depth, shape_seed: 11 + depth as u64 + vi as u64, variant, ops: vec![], unroll_max: 64, premature: 0 };
                         if !rejection_is_certain(&c) {
                             continue;
                         }
@@ -769,7 +904,9 @@ pub fn gen_case(seed: u64, idx: u64, tier: &str) -> LifeCase {
         }
     }
     let unroll_max = if thorough { 20_000 } else { 2_000 };
-    LifeCase { tmpl, form, pads, stack_kib, depth, shape_seed, variant, ops, unroll_max }
+    // drawn last so that every other field of a case stays what it was before this field existed
+    let premature = if (form == Form::Indirect || tmpl == Tmpl::Mutual) && rng.chance(1, 5) { 1 + rng.below(2) as u8 } else { 0 };
+    LifeCase { tmpl, form, pads, stack_kib, depth, shape_seed, variant, ops, unroll_max, premature }
 }
 
 pub struct LifeSim;
@@ -826,6 +963,12 @@ impl Engine for LifeSim {
         acc.add("fired.drop_original_handle", c.ops.iter().filter(|o| matches!(o, Op::Drop(0))).count() as u64);
         acc.add("fired.clone", c.ops.iter().filter(|o| matches!(o, Op::Clone(_))).count() as u64);
         acc.add("fired.boxed", c.ops.iter().filter(|o| matches!(o, Op::Boxed(_))).count() as u64);
+        if let Some(o) = &run.premature {
+            acc.inc("fired.premature_parse_before_first_define");
+            if o.is_panic() {
+                acc.inc("fired.premature_parse_panicked(used before being defined; characterised only)");
+            }
+        }
         acc.add("sim_steps.lifecycle_ops_plus_input_tokens", c.ops.len() as u64 + (2 * c.depth as u64 + 1) * run.results.iter().filter(|r| matches!(r, OpResult::Parsed(_))).count() as u64);
         let pos_parse = c.ops.iter().position(|o| matches!(o, Op::Parse(_) | Op::Check(_))).unwrap_or(0);
         let lifecycle_nontrivial = c.ops.len() >= 3 && c.ops[..c.ops.len() - 1].iter().any(|o| matches!(o, Op::Drop(_) | Op::DefineAgain(_))) && pos_parse < c.ops.len();
@@ -895,6 +1038,11 @@ pub fn shrink_candidates(c: &LifeCase) -> Vec<LifeCase> {
     if c.variant != Variant::WellFormed {
         let mut x = c.clone();
         x.variant = Variant::WellFormed;
+        v.push(x);
+    }
+    if c.premature != 0 {
+        let mut x = c.clone();
+        x.premature = 0;
         v.push(x);
     }
     if let Some(pos) = STACKS_KIB.iter().position(|s| *s == c.stack_kib) {
